@@ -473,4 +473,48 @@ def r4_7(ctx):
               f"escape() returns `{detail[:120]}` on some path, not just the result of the tag-escaping substitution: text without tags is changed too (e.g. a backslash is appended), so render(escape(s)) != s")
 
 
-RULES = [r4_1, r4_2, r4_3, r4_4, r4_5, r4_6, r4_7]
+def r4_8(ctx):
+    ctx.rule("R4.8", "a tag's parameter reaches the style verbatim: in markup._parse the expression stored as the Tag's parameters is derived from the text the regex matched by splitting only (partition / find + slices / group access, through temporaries) - no case folding, stripping or replacing is applied on the way (Style.normalize folds the NAME later; a link URL or any other parameter is case sensitive)")
+    from ..astutil import single_defs as _sdf
+    f = ctx.repo.fn("markup:_parse")
+    m = f.module
+    sd = dict(_sdf(f.node))
+    part = {}
+    for x in walk_local(f.node):
+        if isinstance(x, ast.Assign) and isinstance(x.targets[0], ast.Tuple) and isinstance(x.value, ast.Call) and isinstance(x.value.func, ast.Attribute) and x.value.func.attr in ("partition", "rpartition", "split", "groups"):
+            for e in x.targets[0].elts:
+                if isinstance(e, ast.Name):
+                    part[e.id] = x.value
+    FOLD = {"lower", "upper", "casefold", "title", "swapcase", "capitalize", "strip", "lstrip", "rstrip", "replace", "translate", "expandtabs"}
+    SPLIT = {"partition", "rpartition", "split", "find", "index", "rfind", "group", "groups", "start", "end", "span"}
+    tags = [c for c in walk_local(f.node) if isinstance(c, ast.Call) and norm(c.func) in ("_Tag", "Tag") and len(c.args) >= 2]
+    ctx.floor(len(tags), 1, "Tag constructions in _parse")
+    for c in tags:
+        seen, work, bad, unknown = set(), [c.args[1]], [], []
+        while work:
+            e = work.pop()
+            for n_ in ast.walk(e):
+                if isinstance(n_, ast.Name) and n_.id not in seen:
+                    seen.add(n_.id)
+                    if n_.id in part:
+                        work.append(part[n_.id])
+                    elif n_.id in sd:
+                        work.append(sd[n_.id])
+                if isinstance(n_, ast.Call):
+                    if isinstance(n_.func, ast.Attribute):
+                        if n_.func.attr in FOLD:
+                            bad.append(n_)
+                        elif n_.func.attr not in SPLIT:
+                            unknown.append(n_)
+                    elif norm(n_.func) not in ("len", "_Tag", "Tag"):
+                        unknown.append(n_)
+        where = f"{m.relpath}:{c.lineno}"
+        if bad:
+            ctx.violation(f.fq, short(c), where, f"the tag's parameter is derived through `{short(bad[0])}`: the parameter text is altered before it is stored - [link=https://Example.org/Page?Q=1] becomes a link to https://example.org/page?q=1")
+        elif unknown:
+            raise AnalysisError(f"markup._parse: the tag's parameter passes through `{short(unknown[0])}`; not decided")
+        else:
+            ctx.ok(where, "the parameter part is split off the matched text and stored unchanged", f.fq)
+
+
+RULES = [r4_1, r4_2, r4_3, r4_4, r4_5, r4_6, r4_7, r4_8]
